@@ -39,12 +39,179 @@ def unordered_sites(fn: ast.FunctionDef):
             f = n.func
             if isinstance(f, ast.Name) and f.id in ("min", "max", "next", "list", "tuple", "iter", "enumerate", "zip") \
                     and n.args and is_setexpr(n.args[0]):
-                out.append((n, f.id, src(n.args[0])))
+                # the smallest / largest element itself does not depend on the iteration order; with a key, ties do
+                if not (f.id in ("min", "max") and not any(k.arg == "key" for k in n.keywords) and len(n.args) == 1):
+                    out.append((n, f.id, src(n.args[0])))
             if isinstance(f, ast.Attribute) and f.attr == "pop" and is_setexpr(f.value) and not n.args:
                 out.append((n, "pop", src(f.value)))
         if isinstance(n, (ast.For, ast.comprehension)) and is_setexpr(n.iter):
             out.append((n, "for", src(n.iter)))
     return out, setvars
+
+
+ROUTE_TABLE = "self._route_map"
+_SIGNS = {ast.Lt: {-1}, ast.LtE: {-1, 0}, ast.Eq: {0}, ast.GtE: {0, 1}, ast.Gt: {1}, ast.NotEq: {-1, 1}}
+_NEG = {ast.Lt: ast.GtE, ast.LtE: ast.Gt, ast.Gt: ast.LtE, ast.GtE: ast.Lt, ast.Eq: ast.NotEq, ast.NotEq: ast.Eq,
+        ast.In: ast.NotIn, ast.NotIn: ast.In, ast.Is: ast.IsNot, ast.IsNot: ast.Is}
+
+
+class _TooLarge(Exception):
+    pass
+
+
+def _alias_env(fn):
+    """single-assignment locals that only name a value computed from other values (views of the tables, sums, comparisons):
+    locals bound to the result of a call (the chosen node itself) stay as they are"""
+    return {k: v for k, v in inline_locals(fn).items() if not any(isinstance(x, (ast.Call, ast.Lambda)) for x in ast.walk(v))}
+
+
+def _dnf(e, neg=False):
+    """condition -> list of conjunctions (lists) of atoms (expression node, negated?); comparisons are negated by flipping"""
+    if isinstance(e, ast.UnaryOp) and isinstance(e.op, ast.Not):
+        return _dnf(e.operand, not neg)
+    if isinstance(e, ast.BoolOp):
+        parts = [_dnf(v, neg) for v in e.values]
+        if isinstance(e.op, ast.And) != neg:        # conjunction
+            out = [[]]
+            for p in parts:
+                out = [c + d for c in out for d in p]
+                if len(out) > 64:
+                    raise _TooLarge()
+            return out
+        return [c for p in parts for c in p]
+    if isinstance(e, ast.Compare) and len(e.ops) == 1 and neg and type(e.ops[0]) in _NEG:
+        return [[(ast.Compare(left=e.left, ops=[_NEG[type(e.ops[0])]()], comparators=e.comparators), False)]]
+    return [[(e, neg)]]
+
+
+def _leaves(block_stmt):
+    """does the statement list always leave the enclosing block (continue / break / return / raise at its end)?"""
+    return bool(block_stmt) and isinstance(block_stmt[-1], (ast.Continue, ast.Break, ast.Return, ast.Raise))
+
+
+def _path_condition(node, stop, env):
+    """conditions under which `node` is reached inside `stop` (a loop): the tests of the enclosing `if`s with their polarity and
+    the negated tests of earlier `if c: continue` exits of the enclosing blocks -> list of expanded expression nodes, or None"""
+    conds = []
+    ch, p = node, parent(node)
+    while p is not None and ch is not stop:
+        for f in ("body", "orelse", "finalbody"):
+            blk = getattr(p, f, None)
+            if isinstance(blk, list) and ch in blk:
+                if isinstance(p, ast.If):
+                    t = expand(p.test, env)
+                    conds.append(t if f == "body" else ast.UnaryOp(op=ast.Not(), operand=t))
+                elif isinstance(p, (ast.Try, ast.With)) or (isinstance(p, (ast.For, ast.While)) and f != "body"):
+                    return None
+                for prev in blk[:blk.index(ch)]:
+                    if isinstance(prev, ast.If) and _leaves(prev.body) and not prev.orelse:
+                        conds.append(ast.UnaryOp(op=ast.Not(), operand=expand(prev.test, env)))
+                    elif isinstance(prev, ast.If) and prev.orelse and _leaves(prev.orelse) and not _leaves(prev.body):
+                        conds.append(expand(prev.test, env))
+        ch, p = p, parent(p)
+    return conds
+
+
+def _two_level(e):
+    """X[k1][k2] -> (src X, src k1, src k2)"""
+    if isinstance(e, ast.Subscript) and isinstance(e.value, ast.Subscript):
+        return src(e.value.value), src(e.value.slice), src(e.slice)
+    return None
+
+
+def _route_search_verdict(loop, env, sname):
+    """three-valued verdict on the relaxation inside `loop`: every store into the route table is reached only when the candidate is
+    strictly shorter than the stored route, or equally long and smaller in a total order of the routes -> (ok, why)"""
+    stores = []
+    for n in ast.walk(loop):
+        if isinstance(n, ast.Assign) and len(n.targets) == 1 and isinstance(n.targets[0], ast.Subscript):
+            t = expand(n.targets[0], env)
+            tl = _two_level(t)
+            if tl and tl[0] == ROUTE_TABLE:
+                stores.append((n, src(t), src(expand(n.value, env)), tl[1:]))
+            elif src(t).startswith(ROUTE_TABLE):
+                return None, f"store `{src(n)[:60]}` into the route table is not of the form table[from][to] = route"
+    if not stores:
+        return None, (f"the route search was not recognised (no store into {ROUTE_TABLE}[from][to] in the loop of the choice): whether "
+                      f"equally short routes are chosen independently of the hash order of `{sname}` is not decided")
+    groups = {}
+    for st in stores:
+        pc = _path_condition(st[0], loop, env)
+        if pc is None:
+            return None, f"the conditions under which `{src(st[0])[:60]}` is reached are not recognised"
+        groups.setdefault(tuple(sorted(src(c) for c in pc)), (pc, []))[1].append(st)
+    kinds = []          # (kind, group stores, text of the disjunct)
+    for key, (pc, sts) in groups.items():
+        cond = ast.BoolOp(op=ast.And(), values=pc) if len(pc) > 1 else pc[0] if pc else None
+        try:
+            dnf = _dnf(cond) if cond is not None else [[]]
+        except _TooLarge:
+            return None, "the guard of the route update is too large to be analysed"
+        for conj in dnf:
+            dsign, rsign, seen_d, seen_r = {-1, 0, 1}, {-1, 0, 1}, False, False
+            mentions_routes = False
+            for a, neg in conj:
+                if neg or not (isinstance(a, ast.Compare) and len(a.ops) == 1 and type(a.ops[0]) in _SIGNS):
+                    mentions_routes = mentions_routes or ROUTE_TABLE in src(a) or any(st[2] in src(a) for st in sts)
+                    continue
+                if not any({src(a.left), src(a.comparators[0])} == {st[1], st[2]} for st in sts):
+                    mentions_routes = mentions_routes or ROUTE_TABLE in src(a) or any(st[2] in src(a) for st in sts)
+                l, r, sg = a.left, a.comparators[0], _SIGNS[type(a.ops[0])]
+                flipped = {-x for x in sg}
+                for _, tsrc, vsrc, keys in sts:
+                    # candidate route against the stored route
+                    if src(l) == vsrc and src(r) == tsrc:
+                        rsign, seen_r = rsign & sg, True
+                    elif src(r) == vsrc and src(l) == tsrc:
+                        rsign, seen_r = rsign & flipped, True
+                    # candidate distance (sum of two entries of a table) against the entry [from][to] of the same table
+                    for stored, cand, s_ in ((r, l, sg), (l, r, flipped)):
+                        tl = _two_level(stored)
+                        if tl and tl[0] != ROUTE_TABLE and tuple(tl[1:]) == tuple(keys) and isinstance(cand, ast.BinOp) and \
+                                isinstance(cand.op, ast.Add) and all((_two_level(x) or ("",))[0] == tl[0] for x in (cand.left, cand.right)):
+                            dsign, seen_d = dsign & s_, True
+                            break
+                    else:
+                        continue
+                    break
+            text = " and ".join(("not " if neg else "") + src(a) for a, neg in conj) or "always"
+            if (seen_d and not dsign) or (seen_r and not rsign):
+                continue                                   # contradictory: never taken
+            if not seen_d:
+                kinds.append(("unknown", sts, text))
+            elif dsign == {-1}:
+                kinds.append(("strict", sts, text))
+            elif dsign == {0}:
+                kinds.append(("tiebreak" if seen_r and rsign <= {-1, 0} else "equal" if not seen_r and not mentions_routes else "unknown",
+                              sts, text))
+            elif dsign == {-1, 0}:
+                kinds.append(("nonstrict" if not seen_r and not mentions_routes else "unknown", sts, text))
+            else:
+                kinds.append(("unknown", sts, text))
+    for k, sts, text in kinds:
+        if k == "nonstrict":
+            return False, (f"`{src(sts[0][0])[:70]}` is reached when `{text}`: the test is not strict, so an equally long route overwrites "
+                           f"the stored one in visiting order, which is the hash order of `{sname}`: processes with different string "
+                           "hash seeds keep different routes and then transpose over different communicators")
+        if k == "equal":
+            return False, (f"`{src(sts[0][0])[:70]}` is reached when `{text}` without comparing the candidate with the stored route: "
+                           f"equally long routes overwrite each other in visiting order, which is the hash order of `{sname}`")
+    unk = [x for x in kinds if x[0] == "unknown"]
+    if unk:
+        return None, (f"`{src(unk[0][1][0][0])[:70]}` is reached when `{unk[0][2][:120]}`: not recognised as `candidate strictly shorter` or "
+                      "`equally long and candidate route smaller than the stored one`")
+    ties = [x for x in kinds if x[0] == "tiebreak"]
+    if not ties:
+        if not kinds:
+            return None, "no reachable store into the route table"
+        return False, ("routes are replaced by strictly shorter ones only and there is no equal-distance tie-break: among equally long "
+                       f"routes the first visited wins, and the visiting order is the hash order of `{sname}`, so processes with "
+                       "different string hash seeds keep different routes and then transpose over different communicators")
+    for _, sts, text in ties:
+        ks = {tuple(keys) for _, _, _, keys in sts}
+        if not any((b_, a_) in ks for a_, b_ in ks):
+            return None, f"the tie-break `{text[:100]}` does not store the chosen route in both directions of the table"
+    return True, "routes are replaced when strictly shorter, or when equally long and smaller in the (total) order of the routes; both directions stored"
 
 
 def b4_route_determinism(chk, mod):
@@ -54,72 +221,15 @@ def b4_route_determinism(chk, mod):
     chk.functions.add(f"{mod.rel}:LayoutManager._makeConnectionMap")
     sites, setvars = unordered_sites(fn)
     ok_all = True
-    env = inline_locals(fn)
+    env = _alias_env(fn)
     for node, kind, sname in sites:
-        # find the relaxation If-chain in the same loop as the choice
         loop = node
         while loop is not None and not isinstance(loop, (ast.While, ast.For)):
             loop = parent(loop)
-        found = None
-        detail = "no relaxation `if d_new < d_old ... elif d_new == d_old` chain found in the loop of the choice"
-        if loop is not None:
-            for n in ast.walk(loop):
-                if isinstance(n, ast.If) and isinstance(n.test, ast.Compare) and len(n.test.ops) == 1:
-                    t = expand(n.test, env)
-                    if isinstance(t.ops[0], (ast.Lt, ast.LtE, ast.Gt, ast.GtE)) and "distanceMap" in src(t) or \
-                            (isinstance(t.ops[0], (ast.Lt, ast.LtE, ast.Gt, ast.GtE)) and _is_relax(n)):
-                        found = n
-                        break
-        ok = None if found is None else False
-        if found is None:
-            detail = ("the route search was not recognised (no `if d_new < d_old ... elif d_new == d_old` relaxation chain): whether "
-                      f"equally short routes are chosen independently of the hash order of `{sname}` is not decided")
-        if found is not None:
-            t = expand(found.test, env)
-            op = t.ops[0]
-            lhs, rhs = src(t.left), src(t.comparators[0])
-            strict = isinstance(op, (ast.Lt, ast.Gt))
-            # equal-distance branch: `elif lhs == rhs:` (either operand order)
-            eq = None
-            if len(found.orelse) == 1 and isinstance(found.orelse[0], ast.If):
-                e = found.orelse[0]
-                et = expand(e.test, env)
-                if isinstance(et, ast.Compare) and len(et.ops) == 1 and isinstance(et.ops[0], ast.Eq) and \
-                        {src(et.left), src(et.comparators[0])} == {lhs, rhs}:
-                    eq = e
-            if not strict:
-                detail = f"first relaxation test `{src(found.test)}` is not strict: equal-length routes overwrite " \
-                         f"each other in visiting order, which is the hash order of `{sname}`"
-            elif eq is None:
-                detail = "no equal-distance branch: among equal-length routes the first visited wins, " \
-                         f"and the visiting order is the hash order of `{sname}`"
-            else:
-                # inside: a strict total-order comparison of candidate vs stored route, then both map directions stored
-                inner = [x for x in eq.body if isinstance(x, ast.If)]
-                good = False
-                for x in inner:
-                    xt = expand(x.test, env)
-                    if isinstance(xt, ast.Compare) and len(xt.ops) == 1 and isinstance(xt.ops[0], (ast.Lt, ast.Gt)) \
-                            and "_route_map" in src(xt):
-                        # candidate route expression appears in the comparison and in the assignment
-                        assigns = [a for a in ast.walk(x) if isinstance(a, ast.Assign)
-                                   and "_route_map" in src(a.targets[0])]
-                        cand = src(xt.left) if isinstance(xt.ops[0], ast.Lt) else src(xt.comparators[0])
-                        stored = src(xt.comparators[0]) if isinstance(xt.ops[0], ast.Lt) else src(xt.left)
-                        tg = {src(a.targets[0]) for a in assigns}
-                        vals = {src(expand(a.value, env)) for a in assigns}
-                        if stored in tg and cand in vals and len(assigns) >= 2:
-                            good = True
-                        else:
-                            detail = "tie-break does not store the compared candidate route in both map directions"
-                    elif isinstance(xt, ast.Compare):
-                        detail = f"tie-break comparison `{src(x.test)}` is not a strict total-order comparison of routes"
-                if good:
-                    ok = True
-                    detail = "equal-distance branch compares candidate and stored route with a total order and " \
-                             "stores the smaller in both directions"
-                elif not inner:
-                    detail = "equal-distance branch contains no route comparison"
+        if loop is None:
+            ok, detail = None, f"the choice `{kind}({sname})` is not made inside a loop: the route search was not recognised"
+        else:
+            ok, detail = _route_search_verdict(loop, env, sname)
         chk.ob("B4-unordered-choice", node, f"{kind}({sname})", ok, detail, file=mod.rel,
                func="LayoutManager._makeConnectionMap")
         ok_all = ok_all and (ok is not False)
@@ -133,14 +243,12 @@ def b4_route_determinism(chk, mod):
             continue
         s2, _ = unordered_sites(f)
         for node, kind, sname in s2:
-            chk.ob("B4-unordered-choice", node, f"{kind}({sname})", False,
-                   "order-sensitive use of a hash-ordered set in layout management (ranks are separate "
-                   "interpreters with different string hash seeds)", file=mod.rel, func=q)
+            # whether the order reaches a collective is decided by the label propagation of engine B (label HASH, rules B1/B2);
+            # on its own the use is only a possible source of divergence: not decided here
+            chk.ob("B4-unordered-choice", node, f"{kind}({sname})", None,
+                   "order-sensitive use of a hash-ordered set in layout management (ranks are separate interpreters with "
+                   "different string hash seeds): whether the visiting order can change a result is not decided", file=mod.rel, func=q)
     return ok_all
-
-
-def _is_relax(n):
-    return any(isinstance(a, ast.Assign) and "_route_map" in src(a.targets[0]) for a in ast.walk(n))
 
 
 def b4_self_positive(chk):
